@@ -72,6 +72,13 @@ def byte_pushes(f):
             yield bi, t, v[1], t["args"][1].get("item")
 
 
+def _is_version_word(ex, rv):
+    """major * 1000 + minor (possibly folded by the expression layer)"""
+    e = ex.rvalue(rv)
+    s = fmt(e)
+    return re.fullmatch(r"Add\(Mul\(1000, [^()]+\), [^()]+\)|Add\([^()]+, Mul\(1000, [^()]+\)\)|Add\(Mul\([^()]+, 1000\), [^()]+\)", s) is not None
+
+
 def run(F, rep):
     rep.explanation = EXPLANATION
     rep.undecided = UNDECIDED
@@ -170,7 +177,10 @@ def run(F, rep):
             for s in b["stmts"]:
                 if s["k"] == "assign" and not s["pl"]["p"]:
                     nm = gs.local_names().get(s["pl"]["l"])
-                    if nm in ("pack_id", "position_in_pack", "delta_position"):
+                    rvs = strip_tags(ex.rvalue(s["rv"]))
+                    # roles by shape: the pack index is a quotient, the position in the pack a remainder, of the in-group id
+                    if nm and isinstance(rvs, tuple) and rvs[0] == "bin" and rvs[1] in ("Div", "Rem") and "in_group_id" in fmt(rvs):
+                        nm = "pack_id" if rvs[1] == "Div" else "position_in_pack"
                         conds = [(fmt(c[0]), cond_bool(c[1], c[2])) for c in dominating_conds(gs, bi, ex)]
                         lz = any("group_id" in c and v is False for c, v in conds if c.startswith("Lt(")) or any("group_id" in c and v is True for c, v in conds if c.startswith("Le("))
                         arm = "lz" if _in_lz_arm(gs, ex, bi, T["raw_groups"]) else "raw"
@@ -191,7 +201,8 @@ def run(F, rep):
         ex = Exprs(f)
         for bi, b in enumerate(f.blocks):
             for s in b["stmts"]:
-                if s["k"] == "assign" and not s["pl"]["p"] and f.local_names().get(s["pl"]["l"]) == "use_lz_encoding":
+                if s["k"] == "assign" and not s["pl"]["p"] and f.local_names().get(s["pl"]["l"]) and f.locals[s["pl"]["l"]]["ty"] == "bool" and \
+                        re.fullmatch(r"(Le|Lt)\((\d+, .*group_id|.*group_id, \d+)\)", fmt(ex.rvalue(s["rv"]))):
                     nsel += 1
                     e = fmt(ex.rvalue(s["rv"]))
                     rep.ob("C02-RAW", "writer %s selects LZ encoding for group_id >= %d" % (f.key.split("::", 1)[-1], T["raw_groups"]),
@@ -317,7 +328,8 @@ def run(F, rep):
         ex = None
         for bi, b in enumerate(f.blocks):
             for s in b["stmts"]:
-                if s["k"] == "assign" and not s["pl"]["p"] and f.local_names().get(s["pl"]["l"]) == "archive_version":
+                if s["k"] == "assign" and not s["pl"]["p"] and f.local_names().get(s["pl"]["l"]) and f.locals[s["pl"]["l"]]["ty"] == "u32" and \
+                        s["rv"]["k"] in ("bin", "checked", "use") and _is_version_word(ex or Exprs(f), s["rv"]):
                     ex = ex or Exprs(f)
                     e = ex.rvalue(s["rv"])
                     nav += 1
@@ -390,13 +402,40 @@ def run(F, rep):
             t = b["term"]
             if t["k"] == "call" and not t["dest"]["p"]:
                 defs.append((lp.local_names().get(t["dest"]["l"]), ex.call(t)))
+        # roles come from where the values end up: position in the returned tuple -> field of the reader that stores it
+        by_name = {}
         for nm, e in defs:
-            if nm in ("kmer_length", "min_match_len", "_pack_cardinality", "segment_size") and "from_le_bytes" in repr(e):
+            if nm and "from_le_bytes" in repr(e):
                 idx = sorted(_index_const(x) for x in walk(e) if _index_const(x) is not None)
                 if idx:
-                    offs[nm] = idx
-        want = {"kmer_length": [0, 1, 2, 3], "min_match_len": [4, 5, 6, 7], "_pack_cardinality": [8, 9, 10, 11], "segment_size": [12, 13, 14, 15]}
-        rep.ob("C02-PARAMS", "reader takes k, min_match_len, cardinality, segment size from bytes 0-3, 4-7, 8-11, 12-15", offs == want, detail=str(offs),
+                    by_name.setdefault(nm, []).extend(idx)
+        pos_offs = {}
+        for bi, b in enumerate(lp.blocks):
+            for s in b["stmts"]:
+                if s["k"] == "assign" and s["pl"]["l"] == 0 and not s["pl"]["p"]:
+                    e = ex.rvalue(s["rv"])
+                    if isinstance(e, tuple) and e[0] == "agg" and e[1].endswith("Result::Ok"):
+                        tup = dict(e[2]).get("0")
+                        if isinstance(tup, tuple) and tup[0] == "agg" and tup[1] == "tuple":
+                            for pos, comp in tup[2]:
+                                idx = sorted(_index_const(x) for x in walk(comp) if _index_const(x) is not None)
+                                if not idx and isinstance(comp, tuple) and comp[0] == "var":
+                                    idx = sorted(set(by_name.get(comp[1], [])))
+                                pos_offs[int(pos)] = idx
+        for cf in F.funcs.values():
+            if not any(not ct.get("indirect") and ct["callee"] == lp.key for _, ct in cf.calls()):
+                continue
+            cex = Exprs(cf)
+            for cb in cf.blocks:
+                for s in cb["stmts"]:
+                    if s["k"] == "assign" and s["rv"]["k"] == "agg" and s["rv"].get("adt", "").endswith("decompressor::Decompressor"):
+                        for fn, o in zip(s["rv"]["fields"], s["rv"]["ops"]):
+                            v = fmt(cex.operand(o))
+                            m = re.search(r"load_params\(.*\) as Continue\)\.0\.(\d+)$", v)
+                            if m:
+                                offs[fn.lstrip("_")] = pos_offs.get(int(m.group(1)))
+        want = {"kmer_length": [0, 1, 2, 3], "min_match_len": [4, 5, 6, 7], "segment_size": [12, 13, 14, 15]}
+        rep.ob("C02-PARAMS", "reader takes k, min_match_len and segment size from bytes 0-3, 4-7, 12-15 of the params part (bytes 8-11 hold the cardinality)", offs == want, detail=str(offs),
                site="%s:%d" % (lp.file, lp.line_lo), key="C02-PARAMS | reader layout")
     # metadata batch of 50 samples in finalize
     fin = F.funcs.get(AC + "StreamingQueueCompressor::finalize")
@@ -406,8 +445,8 @@ def run(F, rep):
         for bi, t in fin.calls():
             if not t.get("indirect") and t["callee"].endswith("store_contig_batch"):
                 a = ex.operand(t["args"][3])
-                ok = fmt(a) in ("min(Add(%d, i), num_samples)" % T["pack_cardinality"], "cmp::min(Add(%d, i), num_samples)" % T["pack_cardinality"]) or \
-                    ("Add(%d, i)" % T["pack_cardinality"]) in fmt(a)
+                frm = ex.operand(t["args"][2])
+                ok = isinstance(frm, tuple) and frm[0] == "var" and ("Add(%d, %s)" % (T["pack_cardinality"], frm[1])) in fmt(a)
         rep.ob("C02-CARD", "metadata is written in batches of %d samples" % T["pack_cardinality"], ok, key="C02-CARD | metadata batch")
 
     # ------------------------------------------------------------ container framing (C13 rules run here too)
